@@ -93,7 +93,8 @@ def build_index(spec):
 		return m
 	if t == 'bad':
 		return {'2d': np.zeros((2, 2), dtype=int), 'float': np.array([0.0, 1.0]), 'str': 'ab', 'strs': ['a', 'b'],
-		        'emptyfloat': np.array([]), 'obj': [None, 1], 'ragged': [[1], [1, 2]]}[form]
+		        'emptyfloat': np.array([]), 'obj': [None, 1], 'ragged': [[1], [1, 2]],
+		        'emptystr': '', 'emptybytes': b'', 'emptydict': {}, 'emptyset': set(), 'dict': {0: 1}, 'set': {0}}[form]
 	if t == 'unsized':
 		return {'float': 1.5, 'none': None}[form]
 	raise ValueError(t)
@@ -164,6 +165,44 @@ def check(ctx, case):
 				pyfails.append("caller's index array was modified")
 		case['_err'] = real.startswith('err')
 		return [f'c20.get {natlists(sigs)} {wire_index(case["idx"])} {real}'], pyfails
+	if kind == 'bigfile':
+		# a signature file with more than 2^20 values, read through ONE handle in a given order (ints, iteration, ==, slices, arrays):
+		# every access returns what the plain list holds, whatever was read before
+		from gambit.kmers import KmerSpec
+		from gambit.sigs.base import SignatureArray, dump_signatures, load_signatures
+		r_ = __import__('random').Random(case['seed'])
+		kspec = KmerSpec(12, 'ATGAC')
+		sizes = [r_.choice([0, 1, 17, 40000, 70000, 131072, 262144 + r_.randrange(100), 300000]) for _ in range(case['n'])]
+		starts = [r_.randrange(4 ** 12 - sz) if sz else 0 for sz in sizes]
+		ref = [np.arange(st, st + sz, dtype=kspec.index_dtype) for st, sz in zip(starts, sizes)]
+		path = os.path.join(_tmpdir(), f'big{case["seed"]}.gs')
+		dump_signatures(path, SignatureArray(ref, kspec), **({'compression': 'gzip'} if case.get('gz') else {}))
+		pf = []
+		with load_signatures(path) as f:
+			for step, acc in enumerate(case['accesses']):
+				try:
+					if acc[0] == 'int':
+						ok = np.array_equal(f[acc[1]], ref[acc[1]])
+					elif acc[0] == 'iter':
+						ok = all(np.array_equal(a, b) for a, b in zip(f, ref)) and len(f) == len(ref)
+					elif acc[0] == 'eq':
+						ok = bool(f == SignatureArray(ref, kspec))
+					elif acc[0] == 'slice':
+						sl_ = slice(*acc[1])
+						got = f[sl_]
+						ok = len(got) == len(ref[sl_]) and all(np.array_equal(a, b) for a, b in zip(got, ref[sl_]))
+					else:
+						got = f[np.array(acc[1], dtype=np.intp)]
+						ok = len(got) == len(acc[1]) and all(np.array_equal(a, ref[i]) for a, i in zip(got, acc[1]))
+				except Exception as e:
+					ok = False
+					pf.append(f'access {step} {acc} raised {exc_kind(e)}: {e}')
+				if not ok:
+					pf.append(f'access {step} {acc} (after {case["accesses"][:step]}) differs from the list of signatures written; sizes {sizes}')
+					break
+		os.remove(path)
+		case['_err'] = False
+		return [], pf
 	if kind == 'sliceidx':
 		n, a, b, c = case['n'], case['a'], case['b'], case['c']
 		s, e, st = slice(a, b, c).indices(n)
@@ -174,7 +213,7 @@ def check(ctx, case):
 		return [f'c20.sliceidx {n} {o(a)} {o(b)} {o(c)} {s},{e},{st}:{",".join(map(str, lst)) if lst else "-"}'], pf
 	if kind == 'mut':
 		from gambit.sigs.base import SignatureList
-		sl = make_container('list', case['sigs'])
+		sl = make_container('list', case['sigs'], dt=case.get('dt'))
 		ref = [list(s) for s in case['sigs']]
 		errs = []
 		ops_w = []
@@ -182,18 +221,21 @@ def check(ctx, case):
 		snaps = [sl[:], sl[0:n0], sl[-n0:] if n0 else sl[:], sl[list(range(n0))]]
 		for n, op in enumerate(case['ops']):
 			try:
+				# the new signature may be held in a wider integer type than the list's nominal one (values that do not fit it included):
+				# a list keeps what it is given
+				odt = np.dtype(op[3]) if len(op) > 3 else sl.dtype
 				if op[0] == 's':
 					ops_w.append(f's:{op[1]}:{nats(op[2])}')
-					sl[op[1]] = np.array(op[2], dtype=sl.dtype)
+					sl[op[1]] = np.array(op[2], dtype=odt)
 				elif op[0] == 'i':
 					ops_w.append(f'i:{op[1]}:{nats(op[2])}')
-					sl.insert(op[1], np.array(op[2], dtype=sl.dtype))
+					sl.insert(op[1], np.array(op[2], dtype=odt))
 				else:
 					ops_w.append(f'd:{op[1]}')
 					del sl[op[1]]
 			except IndexError:
 				errs.append(n)
-		final = [np.asarray(x).tolist() for x in sl]
+		final = [np.asarray(x).astype(object).tolist() for x in sl]
 		pf = []
 		if len(sl) != len(final):
 			pf.append('len() inconsistent with iteration')
@@ -293,7 +335,7 @@ def run(ctx):
 		# ill-typed
 		for n in (0, 1, 3):
 			for cont in conts:
-				for form in ['2d', 'float', 'str', 'strs', 'emptyfloat', 'obj', 'ragged']:
+				for form in ['2d', 'float', 'str', 'strs', 'emptyfloat', 'obj', 'ragged', 'emptystr', 'emptybytes', 'emptydict', 'emptyset', 'dict', 'set']:
 					sub({'kind': 'get', 'cont': cont, 'sigs': fixed[n], 'idx': {'t': 'bad', 'form': form}}, 'ill-typed')
 				for form in ['float', 'none']:
 					sub({'kind': 'get', 'cont': cont, 'sigs': fixed[n], 'idx': {'t': 'unsized', 'form': form}}, 'ill-typed')
@@ -344,6 +386,26 @@ def run(ctx):
 					sub({'kind': 'get', 'cont': cont, 'sigs': big, 'idx': {'t': 'ints', 'l': l, 'form': 'i1'}}, 'narrow-dtype')
 					l2 = [rng.randint(-n, n - 1) for _ in range(rng.randint(1, 4))]
 					sub({'kind': 'get', 'cont': cont, 'sigs': big, 'idx': {'t': 'ints', 'l': l2, 'form': rng.choice(['i2', 'i4', 'i8', 'array.q', 'array.h', 'array.i', 'memoryview'])}}, 'narrow-dtype')
+		# files with > 2^20 values read through one handle in some order
+		for j in range(ctx.q(8, 60)):
+			n = rng.randint(6, 14)
+			accesses = []
+			for _ in range(rng.randint(3, 10)):
+				r = rng.random()
+				if r < 0.5:
+					accesses.append(['int', rng.randrange(n)])
+				elif r < 0.6:
+					accesses.append(['iter'])
+				elif r < 0.7:
+					accesses.append(['eq'])
+				elif r < 0.85:
+					a, b = sorted(rng.sample(range(n + 1), 2))
+					accesses.append(['slice', [a, b, rng.choice([None, 1, 2])]])
+				else:
+					accesses.append(['ints', [rng.randrange(n) for _ in range(rng.randint(1, 4))]])
+			if j % 2 == 0:
+				accesses = [['int', i] for i in range(n)] + accesses        # sequential read first
+			sub({'kind': 'bigfile', 'n': n, 'seed': rng.randrange(10 ** 6), 'accesses': accesses, 'gz': rng.random() < 0.25}, 'big-file-access-history')
 		# buffer-protocol index objects on small collections
 		for j in range(ctx.q(150, 1500)):
 			n = rng.randint(1, 8)
@@ -367,21 +429,29 @@ def run(ctx):
 				break
 			n = rng.randint(0, 6)
 			sigs = contents(rng, n)
+			narrow = n > 0 and rng.random() < 0.3       # a list whose nominal type is uint16 (as inferred from a narrow first signature)
+			if narrow:
+				sigs = [[v % 65536 for v in sg] for sg in sigs]
+				sigs = [sorted(set(sg)) for sg in sigs]
 			ops = []
 			ln = n
 			for _ in range(rng.randint(1, ctx.q(30, 200))):
 				r = rng.random()
 				i = rng.randint(-ln - 2, ln + 2)
+				wide = None
+				if narrow and rng.random() < 0.3:
+					wide = rng.choice(['u4', 'u8', 'i8'])
+				newsig = (sorted({v % 65536 for v in contents(rng, 1)[0]}) if narrow else contents(rng, 1)[0]) if wide is None else sorted({rng.choice([70000, 65536, 2 ** 32 - 1 if wide != 'u4' else 99999, rng.randrange(2 ** 31)]) for _ in range(rng.randint(1, 3))})
 				if r < 0.35:
-					ops.append(['s', i, contents(rng, 1)[0]])
+					ops.append(['s', i, newsig] + ([wide] if wide else []))
 				elif r < 0.7:
-					ops.append(['i', i, contents(rng, 1)[0]])
+					ops.append(['i', i, newsig] + ([wide] if wide else []))
 					ln += 1
 				else:
 					ops.append(['d', i])
 					if -ln <= i < ln:
 						ln -= 1
-			sub({'kind': 'mut', 'sigs': sigs, 'ops': ops}, 'mutations')
+			sub(dict({'kind': 'mut', 'sigs': sigs, 'ops': ops}, **({'dt': 'u2'} if narrow else {})), 'mutations' + ('-wider-items' if narrow else ''))
 		# equality
 		for j in range(ctx.q(400, 5000)):
 			if not ctx.time_left(0.97):
